@@ -35,8 +35,41 @@ def sh(cmd, cwd=None, env=None, timeout=None, check=True, quiet=False):
 # scratch tree
 # ---------------------------------------------------------------------------
 
+def private_gocache():
+    """Every check invocation compiles hundreds of throw-away packages (generated designs, a rewritten copy of goa).
+    Left in the user's Go build cache they pile up by about half a gigabyte per invocation (135 GB in a day of this
+    work). Each invocation therefore builds into a private cache: a hard-link copy of the main one (made in about a
+    second, so everything setup.sh compiled is a hit), removed when the invocation exits. VERIF_WARM=1 (setup.sh)
+    builds into the main cache itself."""
+    if os.environ.get("VERIF_WARM"):
+        return None
+    try:
+        main = subprocess.run(["go", "env", "GOCACHE"], env=GOENV, stdout=subprocess.PIPE, stderr=subprocess.DEVNULL, timeout=60).stdout.decode().strip()
+    except Exception:
+        return None
+    if not main or main == "off":
+        return None
+    os.makedirs(main, exist_ok=True)
+    parent = os.path.dirname(main.rstrip("/"))
+    for d in os.listdir(parent):  # left behind by invocations that were killed
+        q = os.path.join(parent, d)
+        try:
+            if d.startswith("verif-gocache-") and time.time() - os.path.getmtime(q) > 4 * 3600:
+                shutil.rmtree(q, ignore_errors=True)
+        except OSError:
+            pass
+    priv = tempfile.mkdtemp(prefix="verif-gocache-%d-" % os.getpid(), dir=parent)
+    if subprocess.run(["cp", "-al", main + "/.", priv + "/"], stdout=subprocess.DEVNULL, stderr=subprocess.DEVNULL).returncode != 0:
+        shutil.rmtree(priv, ignore_errors=True)
+        return None
+    return priv
+
+
 class Work:
     def __init__(self):
+        self.gocache = private_gocache()
+        if self.gocache:
+            GOENV["GOCACHE"] = self.gocache
         base = "/dev/shm" if os.path.isdir("/dev/shm") and os.access("/dev/shm", os.W_OK) else tempfile.gettempdir()
         root = os.path.join(base, "verif-work")
         os.makedirs(root, exist_ok=True)
@@ -49,6 +82,8 @@ class Work:
         self.tree_hash = ""
 
     def cleanup(self):
+        if self.gocache:
+            shutil.rmtree(self.gocache, ignore_errors=True)
         if os.environ.get("VERIF_KEEP"):
             log("keeping", self.dir)
             return
